@@ -50,10 +50,10 @@ theorem runLoop_calls_prefix (px : PkgMap) (ds : List Detector) (s : St) :
 /-! ### validateAdvisories -/
 
 /-- the advisories recorded so far agree with every finding still to come -/
-def Agree (ids : List ((Nat × Nat) × Adv)) (fs : List (Option Finding)) : Prop :=
+def Agree (ids : List (AdvID × Adv)) (fs : List (Option Finding)) : Prop :=
   ∀ f, some f ∈ fs → ∀ a i, f.adv = some a → a.id = some i → ∀ a', lookAdv ids i = some a' → a' = a
 
-theorem validate_none_iff (fs : List (Option Finding)) (ids : List ((Nat × Nat) × Adv)) :
+theorem validate_none_iff (fs : List (Option Finding)) (ids : List (AdvID × Adv)) :
     validate fs ids = none ↔ Consistent fs ∧ Agree ids fs := by
   induction fs generalizing ids with
   | nil => simp [validate, Consistent, Agree]
